@@ -2,6 +2,11 @@ SPECIFICATION Spec
 CONSTANTS
   MaxIds = 9
   MaxOps = 40
+  IdSpace = 12
+  Objs = {1, 2, 3}
+  SkipLive = TRUE
+  NeedBurn = TRUE
+  MustBurn = FALSE
   KeepHist = TRUE
 ACTION_CONSTRAINT EmitFull
 CHECK_DEADLOCK FALSE
